@@ -1179,14 +1179,18 @@ div_signed_int(Type& to, const Type x, const Type y, Rounding_Dir dir) {
     return V_EQ;
   }
   Type m = x % y;
-  if (m < 0) {
+  if (m == 0) {
+    return V_EQ;
+  }
+  // The quotient has been truncated towards zero: it is above the exact
+  // result if and only if the latter is negative, i.e., if and only if
+  // the dividend (whose sign is the one of `m') and the divisor have
+  // opposite signs.
+  if ((m < 0) != (y < 0)) {
     return round_lt_int_no_overflow<To_Policy>(to, dir);
   }
-  else if (m > 0) {
-    return round_gt_int_no_overflow<To_Policy>(to, dir);
-  }
   else {
-    return V_EQ;
+    return round_gt_int_no_overflow<To_Policy>(to, dir);
   }
 }
 
